@@ -5,7 +5,8 @@ from ._machine_prop import make
 ID = "C16"
 RULE = (
     "Walks over all configurations (scale None / given, single-key / per-axis position, +-"
-    "segmentation, 2D/3D) in which ~45% of the steps are read-only operations on the current "
+    "segmentation, 2D/3D; also segmentation together with per-axis positions, which is only "
+    "constructible through a pre-built registry and is only queried/exported, never edited) in which ~45% of the steps are read-only operations on the current "
     "(edited) tracks: export_to_csv (plain, display names, node subset, with relabelled tif), "
     "export_to_geff (full, subset, zarr v3), save_tracks, deprecated export_tracks, and query "
     "groups (track neighbours / presence / next ids / lookups; nodes / edges / degrees / "
@@ -18,6 +19,8 @@ RULE = (
 )
 ASSUMPTIONS = ["_get_new_node_ids is not a query (it issues ids and advances its counter by design)"]
 REQUIRED_CLASSES = {t: ["ro:export_geff:ok", "ro:export_csv:ok", "ro:save_tracks:ok", "ro:queries_track:ok",
-                        "ro:export_geff_subset:ok", "cfg:scale=None", "cfg:per_axis_pos"]
+                        "ro:export_geff_subset:ok", "cfg:scale=None", "cfg:per_axis_pos",
+                        "cfg:seg_with_per_axis_pos"]
                     for t in ("quick", "thorough")}
-run_shard, replay, minimise = make(C16Oracle, quick=(320, 24), thorough=(3200, 40), profile="general")
+run_shard, replay, minimise = make(C16Oracle, quick=(320, 24), thorough=(3200, 40), profile="general",
+                                   cfg_kwargs={"allow_seg_axes": True})
